@@ -266,6 +266,10 @@ def check(pid, tier, seed):
         mlines = ["\t".join([c.fn, *(c.margs if c.margs is not None else c.args)]) for c in cases]
         try:
             impl = run_impl(lines, facts_path)
+            for i, c in enumerate(cases):
+                if c.post is not None:
+                    impl[i], margs = c.post(impl[i])
+                    mlines[i] = "\t".join([c.fn, *margs]) if margs is not None else "noop"
             model = run_model(mlines)
         except Exception as e:  # noqa: BLE001
             broken.append({"what": "harness", "detail": str(e)[-600:]})
